@@ -1,4 +1,5 @@
 import ClusterVerif.Lemmas.C06S
+import ClusterVerif.Lemmas.C06G
 import ClusterVerif.Model.C06O
 import ClusterVerif.Spec.C06O
 
@@ -769,5 +770,160 @@ theorem one_member_cid (self st : Nat) (pin : Pin) (fol : Bool) (h : pin.everywh
 
 example : globalCid { self := 3, follower := false, members := [3], pin := some (Pin.mk false 1 1 [3] (-1)), replies := [(3, Reply.ok 16)] }
     = [(3, 16)] := by decide
+
+/-! ### Round 8 final: the LISTING (`Cluster.StatusAll`) for ARBITRARY member lists, reply tables and errors -/
+
+/-- EVERY cell of the listing, exactly: for a listed CID and a peer of the member list (the node itself in
+follower mode) — unreachable: cluster_error; answered: the status it reported LAST for the CID, absent when it
+reported none; refused (authorization error): absent; any peer outside the list: absent. Induction over the
+member list, each reply and the unreachable members; members may repeat, replies may list a CID many times. -/
+theorem gs_cell (i : GSliceInput) : ∀ e ∈ globalSlice i, ∀ p,
+    lookup e.2 p =
+      if p ∈ (if i.follower then [i.self] else i.members) then
+        (match replyOf i.replies p with
+         | .ok l => lastFor l e.1
+         | .err => some stClusterError
+         | .auth => none)
+      else none := globalSlice_cell i
+
+example : globalSlice ⟨0, false, [0, 1, 2, 1], [], [(0, .ok [(5, 16), (7, 4), (5, 4)]), (1, .err), (2, .auth)]⟩
+    = [(5, [(0, 4), (1, 2)]), (7, [(0, 4), (1, 2)])] := by decide
+
+/-- the three per-CID clauses of the listing that `gc_holds` gives for `Cluster.Status(cid)`, for EVERY input of
+a non-follower: `g_own_report` and `g_allocated` always hold; `g_others_remote` holds exactly when every
+non-allocated member (CID of the pinset, not a meta pin) answered with remote or nothing, or refused — it FAILS
+as soon as such a member is unreachable (finding K04). -/
+theorem gs_holds (i : GSliceInput) (hf : i.follower = false) : ∀ e ∈ globalSlice i,
+    gsOwnReport i e.1 e.2 = true ∧ gsAllocated i e.1 e.2 = true ∧
+    (gsOthersRemote i e.1 e.2 = true ↔
+      ∀ p ∈ i.members, ∀ pin, pinOf i e.1 = some pin → pin.isMeta = false → allocatedFor i e.1 p = false →
+        match replyOf i.replies p with
+        | .ok l => lastFor l e.1 = none ∨ lastFor l e.1 = some stRemote
+        | .err => False
+        | .auth => True) := by
+  intro e he
+  have hcell : ∀ p ∈ i.members, lookup e.2 p =
+      (match replyOf i.replies p with
+       | .ok l => lastFor l e.1
+       | .err => some stClusterError
+       | .auth => none) := by
+    intro p hp
+    have h := globalSlice_cell i e he p
+    rw [hf] at h
+    simp only [Bool.false_eq_true, if_false, hp, if_true] at h
+    exact h
+  refine ⟨?_, ?_, ?_⟩
+  · unfold gsOwnReport
+    rw [List.all_eq_true]
+    intro p hp
+    have hc := hcell p hp
+    cases hr : replyOf i.replies p with
+    | ok l =>
+      rw [hr] at hc
+      simp only at hc ⊢
+      rw [hc]
+      cases hl : lastFor l e.1 with
+      | some st => exact lastFor_some hl
+      | none => simp only; rw [lastFor_none hl]; rfl
+    | err => rfl
+    | auth => rfl
+  · unfold gsAllocated
+    rw [List.all_eq_true]
+    intro p hp
+    have hc := hcell p hp
+    cases hr : replyOf i.replies p with
+    | ok l => rfl
+    | err => rw [hr] at hc; simp only at hc ⊢; rw [hc]; simp
+    | auth => rfl
+  · unfold gsOthersRemote
+    rw [List.all_eq_true]
+    constructor
+    · intro h p hp pin hpin hmeta halloc
+      have h1 := h p hp
+      have hc := hcell p hp
+      rw [hpin] at h1
+      simp only [hmeta, halloc, Bool.false_or] at h1
+      cases hr : replyOf i.replies p with
+      | ok l =>
+        rw [hr] at hc; simp only at hc ⊢
+        rw [hc] at h1
+        simpa using h1
+      | err =>
+        rw [hr] at hc; simp only at hc ⊢
+        rw [hc] at h1
+        revert h1; decide
+      | auth => trivial
+    · intro h p hp
+      cases hpin : pinOf i e.1 with
+      | none => rfl
+      | some pin =>
+        simp only
+        cases hmeta : pin.isMeta with
+        | true => rfl
+        | false =>
+          cases halloc : allocatedFor i e.1 p with
+          | true => rfl
+          | false =>
+            have h1 := h p hp pin hpin hmeta halloc
+            have hc := hcell p hp
+            cases hr : replyOf i.replies p with
+            | ok l =>
+              rw [hr] at hc h1; simp only at hc h1
+              rw [hc]
+              rcases h1 with h1 | h1 <;> rw [h1] <;> rfl
+            | err => rw [hr] at h1; exact h1.elim
+            | auth => rw [hr] at hc; simp only at hc; rw [hc]; rfl
+
+/-- hypotheses met non-trivially: 3 members, one unreachable and allocated, one answering twice for the CID -/
+example : (globalSlice ⟨0, false, [0, 1, 2], [(5, ⟨false, 1, 2, [0, 1], -1⟩)],
+      [(0, .ok [(5, 4), (5, 16)]), (1, .err), (2, .ok [(5, 256)])]⟩).all
+    (fun e => gsOwnReport ⟨0, false, [0, 1, 2], [(5, ⟨false, 1, 2, [0, 1], -1⟩)],
+      [(0, .ok [(5, 4), (5, 16)]), (1, .err), (2, .ok [(5, 256)])]⟩ e.1 e.2 &&
+      gsOthersRemote ⟨0, false, [0, 1, 2], [(5, ⟨false, 1, 2, [0, 1], -1⟩)],
+      [(0, .ok [(5, 4), (5, 16)]), (1, .err), (2, .ok [(5, 256)])]⟩ e.1 e.2) = true := by decide
+
+/-- refutation (K04): "others remote" is NOT a theorem of the listing — a non-allocated member that cannot be
+reached is listed as cluster_error, where `Cluster.Status(cid)` (`gc_holds`) says remote. -/
+theorem gs_others_remote_not_all :
+    ¬ ∀ (i : GSliceInput), i.follower = false → ∀ e ∈ globalSlice i, gsOthersRemote i e.1 e.2 = true := by
+  intro h
+  have := h ⟨0, false, [0, 8], [(0, ⟨false, 1, 2, [0], -1⟩)], [(0, .ok [(0, 16)])]⟩ rfl (0, [(0, 16), (8, 2)]) (by decide)
+  revert this; decide
+
+/-! ### Round 8 final: the Prop reading of the whole fault clause list -/
+
+/-- `holdsF` (what the driver evaluates on every `tf` case) is true exactly when: every CID of the case satisfies
+the agreement, strict agreement, pinned-needs-confirmation (Status and every listing), fault-reporting, truth and
+known-status clauses; every listing is complete and well-formed; when the daemon's listings are sane every listing
+obeys the filter law; and the PinInfo bits / CID lists of both views are right. -/
+theorem holdsF_iff (i : FInput) (o : OutputF) : holdsF i o = true ↔
+    (∀ r ∈ i.recs, agreeF i o r = true ∧ agreeStrictF i o r = true ∧ truthPinnedS i o r = true ∧
+        (∀ e ∈ o.lists, truthPinnedL i e.2 r = true) ∧ faultReported i o r = true ∧ truthF i o r = true ∧
+        knownF r (viewSF o r) = true ∧ knownF r (viewLF o r) = true) ∧
+    (∀ e ∈ o.lists, completeF i o e = true ∧ listingWfF i e.2 = true ∧
+        ((∀ r ∈ i.recs, saneListing r = true) → filterLawF i o e = true)) ∧
+    (∀ e ∈ o.eachInfo, infoOk ((lookup o.each e.1).getD 0) e.2 = true) ∧
+    (∀ e ∈ o.listInfo, infoOk ((lookup (list0F o) e.1).getD 0) e.2 = true) ∧
+    o.eachInfo.map (·.1) = o.each.map (·.1) ∧ o.listInfo.map (·.1) = (list0F o).map (·.1) := by
+  unfold holdsF clausesF
+  simp only [List.all_cons, List.all_nil, Bool.and_true, Bool.and_eq_true, List.all_eq_true, Bool.or_eq_true,
+    Bool.not_eq_true', beq_iff_eq]
+  constructor
+  · rintro ⟨h1, h2, h3, h4, h5, h6, h7, h8, h9, ⟨⟨h10, h11⟩, h12⟩, h13⟩
+    refine ⟨fun r hr => ⟨h1 r hr, h2 r hr, (h3 r hr).1, (h3 r hr).2, h4 r hr, h7 r hr, (h8 r hr).1, (h8 r hr).2⟩,
+      fun e he => ⟨h5 e he, h9 e he, fun hs => ?_⟩, h10, h11, h12, h13⟩
+    rcases h6 with h6 | h6
+    · have : (i.recs.all saneListing) = true := List.all_eq_true.mpr hs
+      rw [this] at h6; cases h6
+    · exact h6 e he
+  · rintro ⟨hr, hl, h10, h11, h12, h13⟩
+    refine ⟨fun r h => (hr r h).1, fun r h => (hr r h).2.1, fun r h => ⟨(hr r h).2.2.1, (hr r h).2.2.2.1⟩,
+      fun r h => (hr r h).2.2.2.2.1, fun e h => (hl e h).1, ?_, fun r h => (hr r h).2.2.2.2.2.1,
+      fun r h => (hr r h).2.2.2.2.2.2, fun e h => (hl e h).2.1, ⟨⟨h10, h11⟩, h12⟩, h13⟩
+    cases hs : i.recs.all saneListing with
+    | false => exact Or.inl rfl
+    | true => exact Or.inr (fun e h => (hl e h).2.2 (List.all_eq_true.mp hs))
+
+example : holdsF ⟨0, false, false, false, false, []⟩ ⟨[], [], [(0, [])], []⟩ = true := by decide
 
 end CV.C06
